@@ -123,4 +123,13 @@ PROPS = {
             "merge: only its Ok exits are under contract so far; error exits of merge are not claimed (see DESIGN.md, D8)",
         ],
     },
+    "C05": {
+        "units": ["store", "log"], "label_prefixes": ["C05.", "C01.merge"], "level": "proof",
+        "trusted": ["T1", "T4", "T8", "T9", "T10", "T11", "T12", "T13", "T13s", "TLOG", "TARC", "RW", "DERIVE"],
+        "assumptions": [
+            "fileids_to_merge is verified to return a subset of the files with statistics -- nothing else is assumed about the selection, so merge's contract holds for EVERY selected subset (the f64 threshold arithmetic is irrelevant)",
+            "'now': C01.merge.frame (the whole map is unchanged, Index holds); 'after a restart': C05.merge.recoverable, proved from the log-level merge theorem (lemma_merge_recover_log: per key, via the last-record bridge lemma) under the single hypothesis C05.tombstone_safe, which is isolated as its own lemma and is an OPEN KNOWN FINDING (merge drops tombstones)",
+            "every other way of breaking C05 (wrong copy position or length, missing record, stale index entry, hint record in the wrong hint file, unlinking a wrong file, id reuse) fails a different obligation",
+        ],
+    },
 }
